@@ -133,6 +133,11 @@ def make_ob(tname, opc, op, ctx, fmt, hi, tier, lines=False):
             return None
         if ctx and name in ("CALL_FUNCTION_KW", "CALL_KW") and not (x >= 1):
             return None
+        if not use_src:
+            for cat, table in (("hasconst", CONSTS), ("hasname", NAMES), ("haslocal", VARNAMES), ("hasfree", CELLS + FREES),
+                               ("hascompare", getattr(opc, "cmp_op", ()))):
+                if op in getattr(opc, cat, ()) and not (x < len(table)):
+                    return None   # no table entry: not a valid instruction (where CPython's dis is available it decides this)
         items, off = build_items(opc, op, ctx, x)
         if use_src:
             try:
@@ -739,10 +744,13 @@ def generate(tier, seed):
             for k in ((1, 2) if vt >= (3, 6) else (1,)):
                 for fmt in (("classic",) if tier == "quick" else ("classic", "bytes", "extended")):
                     obs.append(ext_ob(tname, opc, k, fmt, tier))
-        if vt <= (3, 10):
-            for fmt in (("classic",) if tier == "quick" else ("classic", "bytes", "extended")):
+        # own-oracle obligations (line column, jump marks): only where the oracle is CPython's own source for exactly this
+        # table (an interpreter of that version in the sandbox, not a PyPy variant)
+        own = has_interp(opc)
+        if own and vt <= (3, 10):
+            for fmt in (("classic",) if tier == "quick" else ("classic", "extended")):
                 obs.append(linetab_ob(tname, opc, fmt, tier))
-        if "RETURN_VALUE" in opc.opmap:
+        if own and "RETURN_VALUE" in opc.opmap:
             jops = set(opc.hasjrel) | set(opc.hasjabs)
             if has_interp(opc):
                 d = oracles.opcode_dump(vt)["opcode"]
@@ -751,11 +759,15 @@ def generate(tier, seed):
                 if op < 256 and op < len(opc.opname) and not opc.opname[op].startswith("<") and opc.opname[op] in opc.opmap:
                     for fmt in (("classic",) if tier == "quick" else ("classic", "bytes")):
                         obs.append(jumpmark_ob(tname, opc, op, fmt, tier))
-        if "JUMP_FORWARD" in opc.opmap and "FOR_ITER" in opc.opmap:
+        if own and "JUMP_FORWARD" in opc.opmap and "FOR_ITER" in opc.opmap:
             for fmt in (("classic", "extended-bytes") if tier == "quick" else ("classic", "bytes", "extended", "extended-bytes")):
                 obs.append(marks_ob(tname, opc, fmt, tier))
         for fmt in ("classic", "xasm", "extended"):
             obs.append(disco_ob(tname, opc, fmt, tier))
+    # 3.10 line tables are read with struct.iter_unpack: symbolic first lines need the model (harness, §2.4)
+    for ob in obs:
+        if ob.id.startswith(("C12.310.", "C12.310pypy.")) and getattr(ob, "setup", None) is None and ob.direct is None:
+            ob.setup = install_iter_unpack_model
     if tier == "quick":
         for tname in ("opcode_38", "opcode_310"):
             oracles.load_dis(tuple(tabs[tname].version_tuple[:2]))
